@@ -17,7 +17,7 @@ RULE = ("(a) 15 objectives x n<=3 x boxes x starts x maxls {1,3,20} x maxfun {6,
         "maxcor {1,3} x user letter {pure, scribble, samebuf}: every callback state and the "
         "result; (b) every split k in 1..8 of the C06 base runs restarted for 3 iterations; "
         "(c) the C13 objective-redefinition cases (re-weight/rescale at every update call); "
-        "(d) the diagonal utility on dimensions 1..30 x 1..12 pairs x 4 pair generators (axis, dense, ill-scaled, a variable with zero gradient change); "
+        "(d) the diagonal utility on dimensions 1..30 x 1..12 pairs x 5 pair generators (axis, dense, ill-scaled, a variable with zero gradient change, a variable living at a 1e-18 scale); "
         "oracle: #pairs <= maxcor, a provenance search finds a chronological subsequence of "
         "{x0, reported iterates} whose consecutive differences equal sk BITWISE and whose "
         "logged user gradients' differences equal yk BITWISE (pairs inherited from a "
@@ -131,7 +131,7 @@ def run(case):
         from scipy.optimize import LbfgsInvHessProduct
         n, m, v = case["dim"], case["npairs"], case["var"]
         nex = 0
-        for gen in ("axis", "dense", "illscaled", "linearvar"):
+        for gen in ("axis", "dense", "illscaled", "linearvar", "tinyvar"):
             S, Y = [], []
             for k in range(m):
                 if gen == "axis":
@@ -144,6 +144,14 @@ def run(case):
                 elif gen == "illscaled":
                     s = np.cos(1.1 * k + 0.5 * np.arange(n) + v) * 10.0 ** ((k % 5) - 2)
                     y = s * 10.0 ** (3 - (k % 4)) + 1e-3 * np.roll(s, 1) * (n > 1)
+                elif gen == "tinyvar":
+                    # a variable living at a 1e-18 scale (steps far below machine epsilon in
+                    # absolute terms, but not zero) next to ordinary ones; separable model
+                    s = np.sin(0.7 * k + 0.9 * np.arange(n) + 0.3 + v) * (0.2 + 0.05 * k) + 0.03
+                    dd = 1.0 + 0.3 * np.arange(n)
+                    s[n // 2] *= 1e-18
+                    dd[n // 2] *= 1e18 if k % 2 == 0 else 3e17
+                    y = dd * s
                 else:
                     # a variable the objective is linear in: it moves (s_j != 0) but its
                     # gradient component never changes (y_j == 0 in every pair)
